@@ -25,18 +25,38 @@ func v14gLoad(minN, maxN int) { v14gLoadSched(minN, maxN, 0) }
 var v14gSchedKeys = [][4]byte{{6, 2, 4, 8}, {0, 4, 4, 2}}
 
 func v14gLoadSched(minN, maxN, sched int) {
-	data := 0
+	rounds := 1
 	if sched > 0 {
-		// schedules are the quantifier: concrete keys and thresholds
+		// schedules are the quantifier: concrete keys and thresholds; the
+		// native run repeats the load (under the Go scheduler a
+		// schedule-dependent counterexample shows up by repetition)
 		verif.Schedules(sched)
-		if sched < 3 {
-			data = verif.Choose("data", len(v14gSchedKeys))
-		}
+		rounds = verif.NativeRounds(200)
 	} else {
 		verif.Goroutines(true)
 	}
+	// the configuration is chosen in the first round and kept
+	var chosen []int
+	for r := 0; r < rounds; r++ {
+		i := 0
+		choose := func(name string, n int) int {
+			if r == 0 {
+				chosen = append(chosen, verif.Choose(name, n))
+			}
+			i++
+			return chosen[i-1]
+		}
+		v14gLoadRun(minN, maxN, sched, choose, r == 0)
+	}
+}
+
+func v14gLoadRun(minN, maxN, sched int, choose func(string, int) int, first bool) {
+	data := 0
+	if sched > 0 && sched < 3 {
+		data = choose("data", len(v14gSchedKeys))
+	}
 	zctx := zed.NewContext()
-	desc := verif.Choose("desc", 2) == 1
+	desc := choose("desc", 2) == 1
 	o := order.Asc
 	if desc {
 		o = order.Desc
@@ -60,14 +80,14 @@ func v14gLoadSched(minN, maxN, sched int) {
 		if sched > 2 {
 			nthr = 2
 		}
-		pool.Threshold = []int64{1, 8, 13, 64}[verif.Choose("threshold", nthr)]
+		pool.Threshold = []int64{1, 8, 13, 64}[choose("threshold", nthr)]
 	} else {
 		pool.Threshold = int64(verif.Range("threshold", 1, 64))
 	}
 	w, err := NewWriter(context.Background(), zctx, pool)
 	verif.Assert(err == nil, "newwriter-no-error")
 	typ := zctx.MustLookupTypeRecord([]zed.Field{zed.NewField("k", zed.TypeInt64), zed.NewField("m", zed.TypeBytes)})
-	n := verif.Choose("n", maxN-minN+1) + minN
+	n := choose("n", maxN-minN+1) + minN
 	keys := make([]v14Key, n)
 	for i := 0; i < n; i++ {
 		var b zcode.Builder
@@ -80,7 +100,7 @@ func v14gLoadSched(minN, maxN, sched int) {
 				keys[i] = v14Key{k: zed.DecodeInt([]byte{kb})}
 				b.Append([]byte{kb})
 			}
-		} else if verif.Choose("null", 2) == 1 {
+		} else if choose("null", 2) == 1 {
 			keys[i] = v14Key{null: true}
 			b.Append(nil)
 		} else {
@@ -172,7 +192,9 @@ func v14gLoadSched(minN, maxN, sched int) {
 	for i := range seen {
 		verif.Assert(seen[i], "no-value-lost")
 	}
-	verif.Observe("objects", len(objects))
+	if first {
+		verif.Observe("objects", len(objects))
+	}
 	if len(objects) > 1 {
 		verif.Reach("several-objects")
 	}
@@ -200,7 +222,7 @@ func VerifH_C14_O10t_lake_writer_4() {
 }
 
 // verif:desc C14-O10s the loader lake.Writer, same run and same assertions as VerifH_C14_O10_lake_writer, under EVERY goroutine schedule with at most 2 preemptions (thorough tier: 3) at the channel operations, selects, closes, atomics, map accesses, lock/once/WaitGroup operations and goroutine starts of the real Write/flipBuffers/writeObject/Close code (the loader, the errgroup leg writing an object, its sort goroutine) and of what they run (data.Writer, zngio.Writer, seekindex.Writer, the model storage), with a bounded free choice of which runnable goroutine continues: the loader fills the next buffer WHILE the previous object is being written, so this explores the overlap of reading and writing that the one-schedule harness leaves out; the stored objects (every value in exactly one object, none empty, Count/Size/Min/Max, pool-key order with nulls max) and the import statistics do not depend on the schedule
-// verif:bounds 4 values {k:K,m:bytes} with the concrete keys 3,1,2,4 or null,2,2,1 (Choose); pool order asc or desc; pool threshold 1 (an object per value: a flip waits for the write before it), 8 (two and two values), 13 (three values, then one at Close) or 64 (one object at Close); seek stride 2; model storage atomic puts, never failing; preemption bound 2 (thorough: 3, there with the keys 3,1,2,4 and the thresholds 1 and 8 only) - the loader is blocked during most of an object write, so a schedule has few decisions
+// verif:bounds 4 values {k:K,m:bytes} with the concrete keys 3,1,2,4 or null,2,2,1 (Choose); pool order asc or desc; pool threshold 1 (an object per value: a flip waits for the write before it), 8 (two and two values), 13 (three values, then one at Close) or 64 (one object at Close); seek stride 2; model storage atomic puts, never failing; the native replay repeats the load 200 times; preemption bound 2 (thorough: 3, there with the keys 3,1,2,4 and the thresholds 1 and 8 only) - the loader is blocked during most of an object write, so a schedule has few decisions
 // verif:outside as VerifH_C14_O10_lake_writer except that schedules are explored up to the bound; symbolic keys and thresholds (VerifH_C14_O10_lake_writer); field/slice loads and stores are not preemption points (data-race freedom between sync points is assumed, not checked)
 // verif:unwind 64
 func VerifH_C14_O10s_lake_writer_schedules() {
